@@ -2,4 +2,10 @@
 
 package store
 
+import "testing"
+
 const c08RaceEnabled = true
+
+// TestVerifC08Race runs the rounds of TestVerifC08 in a binary built with -race (spec: race=True).  It exists only in
+// that build: a check that is driven without the race detector finds no test and reports the harness as broken.
+func TestVerifC08Race(t *testing.T) { c08Main(t, true) }
